@@ -10,7 +10,7 @@ open DendroModel DendroModel.C16
 `reroot <steps: - or LL,LR,…> <tree>` → rendered tree
 `xhist <xop> | <xop> …`  the extended alphabet (several trees, attribute stores per attribute name, map objects, up pass, dumps):
    `N <tree>` | `C obj` | `M`/`E` as above | `T k <src>` (map object) | `S obj <store: - (None) or n> <weights> <src>`
-   | `U obj <store n> <map: - or k>` | `D obj <store n>`;   `<src>` = `lit <alphabet> <0/1> rows…` | `mat k <0/1>` | `map k`
+   | `U obj <store n> <map: - or k>` | `D obj <store n>` | `SN obj <store> <weights>` (no map) | `SF obj k` (matrix of another namespace);   `<src>` = `lit <alphabet> <0/1> rows…` | `mat k <0/1>` | `map k`
    → per op: `n`, `c`, `m`, `ok …`, an exception name, `u`, or the dump `row;row;…` (row = `x` no attribute, `e` empty, masks `a,b,…`) -/
 
 def splitBar (ws : List String) : List (List String) :=
@@ -163,6 +163,14 @@ def parseXOp : List String → Option XOp
     match j.toNat?, store.toNat?, parseStore mk with
     | some j, some store, some mk => some (.up j store mk)
     | _, _, _ => none
+  | ["SN", j, store, w] =>
+    match j.toNat?, parseStore store, parseWeights w with
+    | some j, some store, some w => some (.scoreNoMap j store w)
+    | _, _, _ => none
+  | ["SF", j, k] =>
+    match j.toNat?, k.toNat? with
+    | some j, some k => some (.scoreForeign j k)
+    | _, _ => none
   | ["D", j, store] =>
     match j.toNat?, store.toNat? with
     | some j, some store => some (.dump j store)
